@@ -1,0 +1,26 @@
+//go:build verif
+// +build verif
+
+package onet
+
+import "sync/atomic"
+
+// Only built with the tag "verif" (verification harness of property C15).
+
+var verifC15Hook atomic.Value // func(name string, key interface{})
+
+// VerifC15SetHook installs f, which is then called at every named point of
+// the client-stream code with the routine's current message (or nil). f may
+// block: no lock is held at any of the points. A nil f removes the hook.
+func VerifC15SetHook(f func(name string, key interface{})) {
+	if f == nil {
+		f = func(string, interface{}) {}
+	}
+	verifC15Hook.Store(f)
+}
+
+func verifC15Point(name string, key interface{}) {
+	if f, ok := verifC15Hook.Load().(func(string, interface{})); ok {
+		f(name, key)
+	}
+}
